@@ -237,7 +237,7 @@ type Exec struct {
 }
 
 func NewExec(path string, opts bolt.Options) *Exec {
-	return &Exec{Path: path, Opts: opts, R: map[string]*bolt.Tx{}, Cur: map[int]*curState{}, Timeout: 20 * time.Second}
+	return &Exec{Path: path, Opts: opts, R: map[string]*bolt.Tx{}, Cur: map[int]*curState{}, Timeout: 8 * time.Second}
 }
 
 func (e *Exec) Open() error {
